@@ -4,7 +4,7 @@
    Round 2 (polish): an [Example] of non-vacuity beside the theorems with hypotheses (data in AssocProofs2.v);
    from C14_go_key_equality_is_symmetric on: the hypotheses on "==" discharged for the pool's keys, the Map
    operations and constructors of the pool machine, views as new objects that survive later updates. *)
-From Verif Require Import Base Sorter SorterProofs Value Seq Coll Pool PoolFrame AssocProofs SorterProofs2 AssocProofs2.
+From Verif Require Import Base Sorter SorterProofs Value Seq Coll Pool PoolFrame AssocProofs SorterProofs2 AssocProofs2 ReorderProofs.
 Local Open Scope nat_scope.
 
 Theorem C14_every_history_refines_the_abstract_map :
@@ -270,6 +270,79 @@ Example C14_pool_example :
 Proof. split; vm_compute; reflexivity. Qed.
 
 
+(* ====================================================================================================
+   Round 3: Go's map iteration order is an oracle (the observed key list [okeys] of each call);
+   [reorder m okeys = Some m'] lists the associations of m in that order.  For EVERY oracle: m' is a
+   permutation of m up to the spelling of "=="-equal keys, the mapping and the size are unchanged, the keys
+   stay distinct.  Hence the unordered views contain each association exactly once whatever order Go
+   chooses, and MakeFromMap yields exactly the associations of the Go map.
+   ==================================================================================================== *)
+Theorem C14_oracle_order_is_a_permutation :
+  forall (okeys : list val) (m m' : list (val * val)),
+  reorder m okeys = Some m' ->
+  exists m'' : list (val * val), Permutation.Permutation m m'' /\ Forall2 same_assoc m'' m'.
+Proof. exact reorder_perm_keq. Qed.
+
+(* with the keys spelled as they are stored (the Go runtime hands out the stored key): literally a permutation *)
+Theorem C14_oracle_order_is_a_permutation_of_the_stored_associations :
+  forall (okeys : list val) (m m' : list (val * val)),
+  spelled_as_stored m okeys -> reorder m okeys = Some m' -> Permutation.Permutation m m'.
+Proof. exact reorder_perm. Qed.
+
+(* the literal statement without that proviso is false of the model: {+0.0: 1} listed under the key -0.0 *)
+Theorem C14_oracle_order_is_a_permutation_refuted :
+  exists (m : list (val * val)) (okeys : list val) (m' : list (val * val)),
+    reorder m okeys = Some m' /\ ~ Permutation.Permutation m m'.
+Proof. exact reorder_perm_refuted. Qed.
+
+Theorem C14_oracle_order_keeps_the_mapping :
+  forall (okeys : list val) (m m' : list (val * val)),
+  wfm val val keq m -> reorder m okeys = Some m' ->
+  (forall x : val, a_get keq m' x = a_get keq m x) /\
+  wfm val val keq m' /\ length m' = length m /\ Permutation.Permutation (map snd m) (map snd m').
+Proof. exact reorder_keeps_mapping. Qed.
+
+(* non-vacuity: a:1 b:2 c:3 iterated as c, a, b *)
+Example C14_oracle_order_example :
+  wfm val val keq ex_cat /\ reorder ex_cat [kc; ka; kb] = Some [(kc, iv 3); (ka, iv 1); (kb, iv 2)] /\
+  spelled_as_stored ex_cat [kc; ka; kb] /\ reorder ex_cat [kc; ka] = None /\ reorder ex_cat [kc; ka; kb; kd] = None.
+Proof.
+  split; [exact (distinctb_ok val val keq ex_cat eq_refl)|]. split; [vm_compute; reflexivity|].
+  split; [|split; vm_compute; reflexivity].
+  intros k k' Hk Hk' E. cbn in Hk, Hk'.
+  destruct Hk as [<-|[<-|[<-|[]]]]; destruct Hk' as [<-|[<-|[<-|[]]]]; try reflexivity; vm_compute in E; discriminate.
+Qed.
+
+(* the unordered views of a Map (GetKeys, AsArray, hence iteration) under ANY oracle order: each
+   association of the map exactly once (as many entries as the map has; every listed pair is looked up to
+   its value; every key that is looked up is listed) *)
+Theorem C14_unordered_views_contain_each_association_exactly_once :
+  forall (zero : val) (p : pool) (o : nat) (okeys : list val) (m m' : list (val * val)),
+  get p o = OMap m -> wfm val val keq m -> reorder m okeys = Some m' ->
+  step zero p (AKeys o okeys) = (p ++ [OArr (map fst m')], RNew) /\
+  step zero p (AsArray o okeys) = (p ++ [OSlice (assoc_vals m')], RNew) /\
+  length m' = length m /\ wfm val val keq m' /\
+  (forall k v : val, In (k, v) m' -> keq k k = true -> a_get keq m k = Some v) /\
+  (forall x v : val, a_get keq m x = Some v -> exists k : val, In (k, v) m' /\ keq x k = true).
+Proof. exact map_views_each_association_once. Qed.
+
+(* MakeFromMap (Map and Catalog): exactly the associations of the Go map *)
+Theorem C14_from_map_exact :
+  forall (zero : val) (p : pool) (src : nat) (okeys : list val) (m m' : list (val * val)),
+  get p src = OGoMap m -> wfm val val keq m -> reorder m okeys = Some m' ->
+  step zero p (FromMap CCatalog src okeys) = (p ++ [OCat m'], RNew) /\
+  step zero p (FromMap CMap src okeys) = (p ++ [OMap m'], RNew) /\
+  (forall x : val, a_get keq m' x = a_get keq m x) /\
+  wfm val val keq m' /\ length m' = length m /\
+  (exists m'' : list (val * val), Permutation.Permutation m m'' /\ Forall2 same_assoc m'' m') /\
+  (spelled_as_stored m okeys -> Permutation.Permutation m m').
+Proof. exact from_map_exact. Qed.
+
+Example C14_from_map_exact_example :
+  run (iv 0) [] [NewGoMap [(ka, iv 1); (kb, iv 2); (ka, iv 10)]; FromMap CMap 0 [kb; ka]; AKeys 1 [ka; kb]] =
+    [OGoMap [(ka, iv 10); (kb, iv 2)]; OMap [(kb, iv 2); (ka, iv 10)]; OArr [ka; kb]].
+Proof. vm_compute. reflexivity. Qed.
+
 Print Assumptions C14_every_history_refines_the_abstract_map.
 Print Assumptions C14_keys_stay_distinct.
 Print Assumptions C14_each_association_once.
@@ -292,3 +365,9 @@ Print Assumptions C14_pool_bulk_remove.
 Print Assumptions C14_pool_constructors_last_wins.
 Print Assumptions C14_views_are_new_objects.
 Print Assumptions C14_snapshots_survive_later_updates.
+Print Assumptions C14_oracle_order_is_a_permutation.
+Print Assumptions C14_oracle_order_is_a_permutation_of_the_stored_associations.
+Print Assumptions C14_oracle_order_is_a_permutation_refuted.
+Print Assumptions C14_oracle_order_keeps_the_mapping.
+Print Assumptions C14_unordered_views_contain_each_association_exactly_once.
+Print Assumptions C14_from_map_exact.
